@@ -6,6 +6,7 @@ import ast
 import z3
 
 from .state import State
+from .source import is_static, is_classmethod, is_property
 from .values import (V, NONE, NoneV, Opt, StrV, SymStr, EnumV, Rec, Ref, TupleV, BytesV, ClassV, FuncV, BoundV,
                      BuiltinV, ModuleV, ExcV, Opaque, RaiseV, Obj, Unsupported, is_term, is_bool, is_real)
 
@@ -694,6 +695,9 @@ class ExprMixin:
             return
         if isinstance(o, ClassV):
             ci = o.cls
+            if name == "__name__":
+                yield st, StrV(ci.name)
+                return
             if ci.is_enum and name in ci.enum_members:
                 yield st, EnumV(ci, self.lift(ci.enum_members[name]) if isinstance(ci.enum_members[name], int)
                                 else ci.enum_members[name])
